@@ -149,7 +149,20 @@ def wrappers(case):
     return out
 
 
+def observe_remove(case):
+    try:
+        g = build(case["map"])
+        g.remove(nm(case["remove"]))
+    except Exception as e:  # noqa: BLE001
+        return [1, code(e)]
+    GEN_CAP[0] = 1000
+    return [0, names(g.get_nodes()), [[un(a), un(b)] for a, b in g.get_edges()], names(g.get_sources()),
+            res(g.topological_sort, names), gen(g.breadth_first), gen(g.depth_first)]
+
+
 result = {}
+if "remove" in payload:
+    result["remove"] = [observe_remove(c) for c in payload["remove"]]
 if "cases" in payload:
     result["obs"] = [observe(c) for c in payload["cases"]]
 if "wrappers" in payload:
